@@ -68,9 +68,27 @@ static int cmp(const void * a, const void * b, void * p)
 #define MAXV (4 * MAXE)
 static int vis_ord[MAXV], vis_id[MAXV], vis_n, vis_stop;
 static int vsign = 1;   /* sign of the visitor's non-zero answer (header vsign); the result is printed times vsign */
+/* header `nestwalk 1`: every visit first walks an auxiliary tree of three elements with another visitor and context
+ * (stopping at its second visit): a traversal started from inside a visitor must not disturb the outer one */
+static int nestwalk;
+static struct cstl_bintree auxt;
+static struct elem auxe[3];
+static int aux_n;
+static int aux_visit(const void * e, cstl_bintree_visit_order_t ord, void * p)
+{
+    (void)e; (void)ord;
+    h_check_priv2(p, H_COOKIE2);
+    return ++aux_n == 2 ? 77 : 0;
+}
 static int visit(const void * e, cstl_bintree_visit_order_t ord, void * p)
 {
     h_check_priv(p);
+    if (nestwalk) {
+        aux_n = 0;
+        if (cstl_bintree_foreach(&auxt, aux_visit, H_COOKIE2, CSTL_BINTREE_FOREACH_DIR_FWD) != 77 || aux_n != 2) {
+            printf("badnest\n"); fflush(stdout); _exit(3);
+        }
+    }
     if (vis_n < MAXV) { vis_ord[vis_n] = (int)ord; vis_id[vis_n] = idof(e); }
     vis_n++;
     return (vis_stop > 0 && vis_n == vis_stop) ? vsign * vis_stop : 0;
@@ -148,7 +166,7 @@ static void run_case(const struct h_case * c)
     int i, k, started = 0;
 
     int opno = 0;
-    nkeys = 0; rb = 0; cmpmode = 0; cmp_calls = 0; vsign = 1; nswap = 0; cur_obj = 0; pbt = &bts[0]; prt = &rts[0];
+    nkeys = 0; rb = 0; cmpmode = 0; cmp_calls = 0; vsign = 1; nswap = 0; cur_obj = 0; pbt = &bts[0]; prt = &rts[0]; nestwalk = 0;
     memset(pool, 0, sizeof(pool));
     memset(seen, 0, sizeof(seen));
     for (i = 0; i < c->nlines; i++) {
@@ -162,6 +180,7 @@ static void run_case(const struct h_case * c)
         if (h_weq(l, 0, "kind")) { rb = h_weq(l, 1, "rb"); continue; }
         if (h_weq(l, 0, "cmpmode")) { cmpmode = a; continue; }
         if (h_weq(l, 0, "vsign")) { vsign = a < 0 ? -1 : 1; continue; }
+        if (h_weq(l, 0, "nestwalk")) { nestwalk = a; continue; }
         if (h_weq(l, 0, "swapobj")) { for (k = 1; k < l->nw && nswap < MAXSW; k++) swap_at[nswap++] = (int)h_int(l, k); continue; }
         if (!started) {
             if (rb) {
@@ -170,6 +189,14 @@ static void run_case(const struct h_case * c)
             } else {
                 cstl_bintree_init(&bts[0], cmp, H_COOKIE, offsetof(struct elem, bn));
                 cstl_bintree_init(&bts[1], cmp, H_COOKIE, offsetof(struct elem, bn2));
+            }
+            if (nestwalk) {
+                cstl_bintree_init(&auxt, cmp, H_COOKIE, offsetof(struct elem, bn));
+                for (k = 0; k < 3; k++) {
+                    memset(&auxe[k], 0x5A, sizeof(auxe[k]));
+                    auxe[k].key = 100 + (k * 2) % 3; auxe[k].id = -5;
+                    cstl_bintree_insert(&auxt, &auxe[k], NULL);
+                }
             }
             started = 1;
         }
